@@ -8,6 +8,7 @@ pub mod ea;
 pub mod decode;
 pub mod flow;
 pub mod exc;
+pub mod charge;
 
 use crate::hv::e1::Case;
 use crate::hv::known::Known;
@@ -23,6 +24,7 @@ pub fn build(id: &str, tier: Tier, seed: u64, known: &[Known]) -> Option<Prop> {
         "C07" => decode::c07(tier, seed),
         "C08" => ea::c08(tier, seed),
         "C03" => alu::c03(tier, seed),
+        "C20" => charge::c20(tier, seed),
         _ => return None,
     };
     // witnesses of known findings and regression cases of fixed findings run first, in both tiers
